@@ -53,6 +53,17 @@ func errStr(err error) string {
 	return "err: " + s
 }
 
+// finalWait is how long the application waits after the peer's final close before it closes
+// the Connection itself: longer than every timeout configured for the protocols involved
+// and longer than the muxer's segment read deadline.
+func finalWait(sp *api) time.Duration {
+	w := sp.maxTimeout + time.Second
+	if w < minFinalWait {
+		w = minFinalWait
+	}
+	return w
+}
+
 // scenario builds the closed harness for one API call and one peer script.
 func scenario(sp *api, script []letter) e1lib.Scenario {
 	name := fmt.Sprintf("%s|script=%s", sp.id(), scriptName(script))
@@ -105,11 +116,7 @@ func scenario(sp *api, script []letter) e1lib.Scenario {
 		// close the connection and wait for the error channel to be closed
 		rt.Recv("h:peerDone?", peerDone)
 		rt.Log("peer-closed")
-		w := sp.maxTimeout + time.Second
-		if w < minFinalWait {
-			w = minFinalWait
-		}
-		vtime.Sleep(w)
+		vtime.Sleep(finalWait(sp))
 		rt.Log("app-close")
 		conn.Close()
 		rt.Log("close-returned")
@@ -204,14 +211,18 @@ func TestC15(t *testing.T) {
 			}
 			for _, sc := range scripts(sp.letters, ml) {
 				s := scenario(sp, sc)
-				s.MinB, s.MaxB, s.Budget = 0, 0, 30*time.Second
+				// budgets are wall-clock caps per scenario; they are generous because the machine is
+				// shared (a bound-1 scenario costs 3-6 s of CPU)
+				s.MinB, s.MaxB, s.Budget = 0, 0, 3*time.Minute
 				if len(sc) <= devLen {
 					s.MaxB, s.MinB = 1, 1
-					s.Budget = 60 * time.Second
+					s.Budget = 15 * time.Minute
 				}
-				if sp.bound > 0 && len(sc) <= sp.boundLen {
-					s.MaxB, s.MinB = sp.bound, sp.bound
-					s.Budget = 120 * time.Second
+				if sp.bound > 0 {
+					s.MaxB, s.MinB = 0, 0
+					if len(sc) <= sp.boundLen {
+						s.MaxB, s.MinB = sp.bound, sp.bound
+					}
 				}
 				scs = append(scs, s)
 			}
